@@ -477,7 +477,13 @@ def run(ctx):
     hpd = ru.need(ctx, "C11-d", Q + "block::HeaderPrefix::decode")
     if hpd:
         for p in [p for p in ru.all_paths(ctx, "C11-d", hpd, max_visits=1) if p.end == "return" and p.ret_shape().startswith("Ok")]:
-            dec_ = [t for t in p.tests if t[3][0] != "discr" and not ("usize::MAX" in t[1] and expr.cmp_nf(t[3], t[2]) is not None)]
+            def range_check(t):
+                nf = expr.cmp_nf(t[3], t[2])
+                if nf is None:
+                    return False
+                c = expr.fold(nf[2], consts)
+                return "usize::MAX" in t[1] or (c is not None and c >= (1 << 32) - 1)
+            dec_ = [t for t in p.tests if t[3][0] != "discr" and not range_check(t)]
             sg = p.ret[3][0][3] if (p.ret[0] == "agg" and p.ret[3] and p.ret[3][0][0] == "agg") else ()
             names_ = [f_["name"] for f_ in prog.adts[Q + "block::HeaderPrefix"]["variants"][0]["fields"]]
             sv = dict(zip(names_, sg)).get("sign_negative")
